@@ -14,6 +14,13 @@ CHECKS = {
     ),
 }
 
+CHECKS["C02"] = dict(
+    category="proof",
+    text="solver.step / solver_mle.step / solver_dynamic.step are verified to be exactly one textbook EKF step (predict with the prior transition, linearise at the predicted mean with the documented Jacobian structure, condition on zero data with damping) for every state, step size, damping and vector field (uninterpreted f with uninterpreted Jacobian), per listed configuration; smoother steps additionally carry the RTS gain.",
+    note="configurations and (q,d) shapes are enumerated (values are not bounded); gain non-singularity (solve_triu) is an inherited precondition; Kalman gain is a ghost witness from the memoised revert contract; grids follow by induction over fold(step) (solve_fixed_grid scan body); real arithmetic",
+    design_ref="DESIGN.md section 4 (C02)",
+)
+
 NOT_APPLICABLE = {
     "C01": "global accuracy / convergence order against the true ODE solution is not a postcondition of one call nor a data-structure invariant; no contract over the code implies it (DESIGN section 4, C01)",
 }
